@@ -106,10 +106,10 @@ def run_tlc(d, module, cfg, env_extra=None, workers=1, timeout=1800, extra_args=
 # ------------------------------------------------------------------------------------------------
 # model runs (exhaustive / simulate), cached by spec hash
 
-def model_run(name, module, cfg_text, mode='exhaustive', sim=None, workers=1, timeout=3600, deps=('RoaringSet.tla', 'Nums.tla')):
+def model_run(name, module, cfg_text, mode='exhaustive', sim=None, workers=1, timeout=3600, deps=('RoaringSet.tla', 'Nums.tla', 'RoaringSerial.tla'), post=None, pcal=None):
     """Runs TLC on a bounded model, returns dict(scripts=path, stats=...). Cached by hash of spec+cfg."""
     os.makedirs(CACHE, exist_ok=True)
-    key = spec_hash([module] + list(deps), cfg_text + mode + json.dumps(sim or {}))
+    key = spec_hash([module] + list(deps), cfg_text + mode + json.dumps(sim or {}) + (post.__name__ if post else ''))
     base = os.path.join(CACHE, '%s-%s' % (name, key))
     if os.path.exists(base + '.stats.json') and os.path.exists(base + '.scripts.ndjson'):
         return {'scripts': base + '.scripts.ndjson', 'stats': json.load(open(base + '.stats.json')), 'cached': True}
@@ -134,8 +134,10 @@ def model_run(name, module, cfg_text, mode='exhaustive', sim=None, workers=1, ti
                     s = json.loads(line)  # a TLC string literal is a JSON string literal here
                 except Exception:
                     continue
-                fo.write(s + '\n')
-                n += 1
+                outs = [s] if post is None else [json.dumps(o) for o in post(json.loads(s))]
+                for o in outs:
+                    fo.write(o + '\n')
+                    n += 1
     os.replace(base + '.scripts.ndjson.tmp', base + '.scripts.ndjson')
     stats['scripts'] = n
     stats['mode'] = mode
@@ -159,13 +161,23 @@ def run_cmd(args, timeout=3600, env=None):
     return p.returncode, p.stdout, p.stderr, time.time() - t0
 
 
-def produce(d, shard, producer_args):
+class RaceDetected(Exception):
+    pass
+
+
+def produce(d, shard, producer_args, race=False, env_extra=None):
     """Runs one producer (drive/replay/...) writing trace-<shard>.ndjson; returns (trace path, cover dict)."""
-    binp, _ = build_harness()
+    binp, _ = build_harness(race=race)
     tr = os.path.join(d, 'trace-%s.ndjson' % shard)
     cov = os.path.join(d, 'cover-%s.json' % shard)
     args = [binp] + producer_args + ['-out', tr, '-cover', cov]
-    rc, so, se, dt = run_cmd(args)
+    env = dict(os.environ)
+    env.update(env_extra or {})
+    if race:
+        env['GORACE'] = 'halt_on_error=1 exitcode=66'
+    rc, so, se, dt = run_cmd(args, env=env)
+    if rc == 66 and 'DATA RACE' in se:
+        raise RaceDetected(se[-6000:])
     if rc != 0:
         # a crash of the driver process is itself an observation (e.g. a fatal runtime error caused by
         # memory corruption inside the library); keep what was written and report it as inconclusive
